@@ -1,0 +1,14 @@
+//go:build verif
+
+package server
+
+import "github.com/fatedier/frp/server/proxy"
+
+// VerifC03UDPWorkConnID: see proxy.VerifUDPWorkConnID.
+func (svr *Service) VerifC03UDPWorkConnID(name string) string {
+	p, ok := svr.pxyManager.GetByName(name)
+	if !ok {
+		return ""
+	}
+	return proxy.VerifUDPWorkConnID(p)
+}
